@@ -302,7 +302,7 @@ example : ∃ d', changeType ⟨.body, false⟩ [("type", .str "integer"), ("min
     `not: {additionalProperties: false}`, which every non-empty object satisfies — including the valid `{"a": 1}`. -/
 theorem negate_negates_full_false : ¬ NegateNegatesFull := by
   intro h
-  have := h ⟨.query, false⟩ true
+  have := h .asFound ⟨.query, false⟩ true
     [("properties", .obj [("a", .obj [])]), ("additionalProperties", .bool false), ("type", .str "object")] _
     "additionalProperties" [] 1 {} (.obj [("a", .num 1 0)]) rfl rfl rfl
     (by intro p hp; simp at hp; rcases hp with rfl | rfl | rfl <;> rfl) (by decide)
@@ -312,22 +312,32 @@ theorem negate_negates_full_false : ¬ NegateNegatesFull := by
 /-- **Partial**: when `additionalProperties` is not among the negated keywords, every instance of the mutated
     schema violates the original (the negated keywords form a sub-dictionary of the original, and every remaining
     keyword check is monotone in the dictionary). -/
-theorem negate_negates_partial (ctx : Ctx) (canNeg : Bool) (d d' : Dict) (cand : String) (en : List String)
-    (fuel : Nat) (env : Env) (v : Json)
-    (h : negateConstraints ctx canNeg d cand en = (.success, d'))
+theorem negate_negates_partial (var : Variant) (ctx : Ctx) (canNeg : Bool) (d d' : Dict) (cand : String)
+    (en : List String) (fuel : Nat) (env : Env) (v : Json)
+    (h : negateConstraints var ctx canNeg d cand en = (.success, d'))
     (hoas : env.oas = .none) (href : Json.lookup "$ref" d = none) (hfun : DictFun d)
     (hap : ∀ neg, Json.lookup "not" d' = some (.obj neg) → Json.lookup "additionalProperties" neg = none)
     (hv : validF (fuel + 2) env (.obj d') v = true) :
     validF (fuel + 1) env (.obj d) v = false :=
-  negate_negates' ctx canNeg d d' cand en fuel env v h hoas href hfun hap hv
+  negate_negates' var ctx canNeg d d' cand en fuel env v h hoas href hfun hap hv
 
-example : ∃ d', negateConstraints ⟨.body, false⟩ true [("type", .str "integer"), ("minimum", .num 3 0)] "minimum" []
+example : ∃ d', negateConstraints .asFound ⟨.body, false⟩ true [("type", .str "integer"), ("minimum", .num 3 0)] "minimum" []
     = (.success, d') ∧ validF 3 {} (.obj d') (.num 1 0) = true := ⟨_, rfl, by decide⟩
 
-/-- `negate_constraints` raises `KeyError` on a numeric exclusive bound without its draft-4 companion keyword. -/
+/-- **As found**, `negate_constraints` raises `KeyError` on a numeric exclusive bound without its draft-4
+    companion keyword (OpenAPI 3.1 form): the operation errors out instead of getting negative cases. -/
 theorem negate_keyError_witness :
-    (negateConstraints ⟨.body, false⟩ true [("type", .str "integer"), ("exclusiveMinimum", .num 3 0)]
+    (negateConstraints .asFound ⟨.body, false⟩ true [("type", .str "integer"), ("exclusiveMinimum", .num 3 0)]
       "exclusiveMinimum" []).1 = .keyError := by decide
+
+/-- **Repaired** (`if dependency in copied`): `negate_constraints` never raises, for any schema and any choices. -/
+theorem negate_never_raises_repaired (ctx : Ctx) (canNeg : Bool) (d : Dict) (cand : String) (en : List String) :
+    (negateConstraints .repaired ctx canNeg d cand en).1 ≠ .keyError := by
+  unfold negateConstraints
+  obtain ⟨r, hr⟩ := negLoop_repaired_some ctx d cand en d []
+  simp only [hr]
+  repeat' split
+  all_goals simp
 
 /-- `change_properties`, relative to the nested mutation: if every instance of the mutated property schema
     violates the original property schema, then every instance of the mutated object schema violates the original
